@@ -25,7 +25,7 @@ PLAN = {
     "thorough": {"shards": 16, "shard_timeout": 3600, "case_timeout": 40, "grammars": 5000, "max_case_timeouts": 80},
 }
 THRESHOLDS = {
-    "quick": {"programs_depth_checked": 3000, "frontier_programs": 500, "infeasible_probes": 40, "after_variation": 300, "via:ge": 100, "via:sge": 100, "via:dsge": 100, "via:direct": 300, "via:fullinit": 50, "create_node_entries_seen": 1000, "sibling_grammars_run": 150},
+    "quick": {"programs_depth_checked": 3000, "frontier_programs": 500, "infeasible_probes": 40, "after_variation": 300, "via:ge": 100, "via:sge": 100, "via:dsge": 100, "via:direct": 300, "via:fullinit": 50, "create_node_entries_seen": 1000, "sibling_grammars_run": 150, "deep_limit_programs": 100, "programs_deeper_than_100": 60},
     "thorough": {"programs_depth_checked": 60000, "frontier_programs": 10000, "infeasible_probes": 500, "after_variation": 6000},
 }
 
@@ -43,6 +43,37 @@ def gen_cases(tier, seed):
             for off in (0, rng.choice([1, 2, 3, 4])):
                 yield {"desc": d, "via": via, "decider": dec, "offset": off, "seed": rng.randrange(10**6), "n": 12 if off == 0 else 6}
     yield from sibling_cases(rng, descs[: max(8, len(descs) // 3)])
+    yield from deep_cases(rng, 3 if tier == "quick" else 40)
+
+
+DEEP = [
+    {
+        "name": "deep_unary",
+        "abstracts": [{"name": "Root", "parent": None, "style": "abc"}],
+        "prods": [{"name": "Leaf", "parent": "Root", "fields": [["v", ["ann", ["int"], ["IntRange", 0, 3]]]]}, {"name": "Wrap", "parent": "Root", "fields": [["x", ["ref", "Root"]]]}],
+        "start": "Root",
+    },
+    {
+        "name": "deep_listed",
+        "abstracts": [{"name": "Root", "parent": None, "style": "abc"}, {"name": "Mid", "parent": "Root", "style": "abc"}],
+        "prods": [
+            {"name": "Leaf", "parent": "Mid", "fields": []},
+            {"name": "Seq", "parent": "Mid", "fields": [["xs", ["ann", ["list", ["ref", "Root"]], ["ListSizeBetween", 1, 1]]]]},
+            {"name": "Wrap", "parent": "Root", "fields": [["x", ["ref", "Mid"]]]},
+        ],
+        "start": "Root",
+    },
+]
+
+
+def deep_cases(rng, rounds):
+    """Limits in the hundreds are as legal as limits below ten: deciders that fill the budget (full, PI-grow) on a
+    unary-recursive grammar build trees exactly that deep, and variation must keep working under the same limit.
+    The harness never raises the interpreter's recursion limit around a library call."""
+    for _ in range(rounds):
+        for desc in DEEP:
+            for via, dec in (("direct", "full"), ("direct", "pigrow"), ("fullinit", "full"), ("ge", "pigrow"), ("sge", "full")):
+                yield {"kind": "deep", "desc": dict(desc), "via": via, "decider": dec, "limit": rng.choice([150, 250, 400, 550, 700]), "seed": rng.randrange(10**6), "n": 3}
 
 
 def sibling_cases(rng, descs):
@@ -110,6 +141,8 @@ def run_case(case, rec):
         if mn >= 1000000:
             rec.count("unproductive_grammar")
             return
+        if case.get("kind") == "deep":
+            case = dict(case, offset=case["limit"] - mn)
         _run(case, rec, built, g, model, mn)
     finally:
         built.dispose()
@@ -215,7 +248,25 @@ def _run(case, rec, built, g, model, mn):
             rec.count("frontier_programs")
         if stage != "create":
             rec.count("after_variation")
+        if case.get("kind") == "deep":
+            rec.count("deep_limit_programs")
+        with core.oracle_room():  # the recursive folds of the ORACLE get stack room; the limit is put back before the next library call
+            _judge(prog, stage)
+
+    def _judge(prog, stage):
         dp = model.depth(prog)
+        if dp >= 100:
+            rec.count("programs_deeper_than_100")
+        if dp > 200:  # the textual form is a recursive fold: summarise very deep programs instead
+            text = f"<{type(prog).__name__} of depth {dp}>"
+            if dp > d:
+                rec.violation(f"depth-exceeded:{label}:{stage}", {"grammar": case["desc"]["name"], "limit": d, "depth": dp, "program": text})
+            else:
+                rec.distinct_add([case["desc"]["name"], label, d, stage, dp])
+                if dp == d:
+                    rec.count("programs_at_limit")
+                rec.sample({"grammar": case["desc"]["name"], "config": label, "limit": d, "min": mn, "depth": dp, "stage": stage, "program": text}, cap=6)
+            return
         if dp > d:
             rec.violation(f"depth-exceeded:{label}:{stage}", {"grammar": case["desc"]["name"], "limit": d, "depth": dp, "program": core.short(model.canon(prog), 400), "expansion": bool(case["desc"].get("expansion"))})
         else:
